@@ -73,6 +73,9 @@ def run(ctx):
                    "merger / is_subset call counters vs merger_c (level-1 pairs)", lambda l, r: r != "CNT 0 0 1 0")
     deep = [vlib.rand_shape(ctx.rng, 4) for _ in range(2000 if ctx.tier == "quick" else 40000)]
     lines = []
+    for a, b in vlib.scale_shape_pairs():              # scale / rare-feature stream first: the bound oracle below judges it
+        lines += ["counts\tsubset\t%s\t%s" % (a, b), "counts\tmerger\t%s\t%s" % (a, b)]
+    n_scale = len(lines)
     for s in deep:
         t = vlib.mutate_shape(ctx.rng, s)
         lines += ["counts\tsubset\t%s\t%s" % (sh_str(s), sh_str(t)), "counts\tsubset\t%s\t%s" % (sh_str(t), sh_str(s)),
@@ -101,7 +104,7 @@ def run(ctx):
                 flines.append(l); fkeys.append((k, op, d + 1)); fout.append(r)
                 if not r.startswith("CNT ") or max(int(x) for x in r.split()[1:]) > 2000000:
                     break
-    bound_lines = [l for l in lines if l.startswith("counts\tsubset") or l.startswith("counts\tmerger")][:6000] + flines
+    bound_lines = [l for l in lines if l.startswith("counts\tsubset") or l.startswith("counts\tmerger")][:n_scale + 6000] + flines
     shapes = sorted({x for l in bound_lines for x in l.split("\t")[2:4]})
     sz = dict(zip(shapes, (int(r.split()[1]) for r in ctx.model(["size\t" + x for x in shapes]))))
     bres = ctx.impl(bound_lines[:len(bound_lines) - len(flines)]) + fout[:len(flines)]
